@@ -27,7 +27,7 @@ RULE = (
     "cases: 2-3 concurrent initiator tasks x 1-4 steps each (makegateway with auto id / explicit id from a small colliding "
     "pool incl. 'gw0'..'gw3', deliberately failing specs followed by a retry, allocate_id(spec) then makegateway(spec), gateway.exit() once or twice, container snapshot incl. membership and lookup of every gateway object ever created) under uniform/sticky/PCT schedules with targeted "
     "preemption in allocate_id/_register/makegateway; plus 6 generated spec strings per run (keys/values over an "
-    "alphabet with '=', ':', '/', space, non-ASCII, 'env:' prefixes, duplicates) checked against an independent parser.  "
+    "alphabet with '=', ':', '/', space, non-ASCII, 'env:' prefixes, duplicates) checked against an independent parser (attributes, str, equality and hash by text - also after id/execmodel were filled in).  "
     "Non-trivial = at least two makegateway calls under a schedule with real choices; distinct = distinct event-log digests."
 )
 ASSUMPTIONS = [
